@@ -553,9 +553,32 @@ pub fn tiles_and_vertex_figures_spherical(s: &Sym) -> bool {
     true
 }
 
-/// O16.1 core: a 3D D-set is a closed manifold cell complex: valid, all
-/// v = 1, every tile and vertex figure a strict sphere.
-pub fn manifold_check(s: &Sym) -> Result<(), String> {
+/// The component of `seed` under three arbitrary ops of a D-set, as a 2D
+/// D-set with all branching numbers 1 (the link of a vertex, tile centre,
+/// face centre or edge midpoint of a 3D D-set).
+pub fn link_2d(s: &Sym, idcs: [usize; 3], seed: usize) -> Sym {
+    let mut elems = s.orbit(&idcs, seed);
+    elems.sort();
+    let mut s2i = vec![0; s.n + 1];
+    for (k, &d) in elems.iter().enumerate() {
+        s2i[d] = k + 1;
+    }
+    let n = elems.len();
+    let mut op = vec![vec![0; n + 1]; 3];
+    for (a, &i) in idcs.iter().enumerate() {
+        for (k, &d) in elems.iter().enumerate() {
+            op[a][k + 1] = s2i[s.op[i][d]];
+        }
+    }
+    let mut v = vec![vec![1; n + 1]; 2];
+    v[0][0] = 0;
+    v[1][0] = 0;
+    Sym { n, dim: 2, op, v }
+}
+
+/// What the property states about a result: valid D-set, branch-free, every
+/// tile ((0,1,2)-component) and vertex figure ((1,2,3)-component) a sphere.
+pub fn tiles_and_vertex_figures_check(s: &Sym) -> Result<(), String> {
     if s.dim != 3 {
         return Err(format!("dimension {}", s.dim));
     }
@@ -565,7 +588,26 @@ pub fn manifold_check(s: &Sym) -> Result<(), String> {
     }
     for idcs in [[0usize, 1, 2], [1, 2, 3]] {
         for orb in s.orbits(&idcs) {
-            is_sphere_strict(&s.subsymbol(&idcs, orb[0])).map_err(|e| {
+            is_sphere_strict(&link_2d(s, idcs, orb[0])).map_err(|e| {
+                format!("({},{},{})-component of chamber {}: {}", idcs[0], idcs[1], idcs[2], orb[0], e)
+            })?;
+        }
+    }
+    Ok(())
+}
+
+/// A 3D D-set is a closed manifold cell complex: valid, all v = 1, and the
+/// link of every vertex, tile centre, FACE CENTRE and EDGE MIDPOINT is a
+/// 2-sphere. For oriented D-sets the last two follow from the first two;
+/// for non-oriented ones they do not (a face glued to itself by a half turn
+/// has a projective plane as link: a quotient of S^3 by a group with
+/// isolated fixed points is branch-free with spherical tiles and vertex
+/// figures and still not a manifold).
+pub fn manifold_check(s: &Sym) -> Result<(), String> {
+    tiles_and_vertex_figures_check(s)?;
+    for idcs in [[0usize, 1, 3], [0, 2, 3]] {
+        for orb in s.orbits(&idcs) {
+            is_sphere_strict(&link_2d(s, idcs, orb[0])).map_err(|e| {
                 format!("({},{},{})-component of chamber {}: {}", idcs[0], idcs[1], idcs[2], orb[0], e)
             })?;
         }
